@@ -243,9 +243,9 @@ def probe(api, ctx, baseline, ptr, names, inv=False):
     else:
         p = [-1] * NPROBE       # the context is not usable: a mismatch, judged by the specification
         q = -1
-    # unexpected global names a script can write (the engine's internal slots - "e@7", the renamed parameter of a
-    # program-level catch clause - are not names of the language)
-    extra = len([n for n in ctx._globals if n not in baseline and n not in names and n.isidentifier()])
+    # unexpected global names (the engine's internal slots - "e@7", the renamed parameter of a program-level catch
+    # clause: `@` cannot occur in a name a script writes - are not names of the language)
+    extra = len([n for n in ctx._globals if n not in baseline and n not in names and "@" not in n])
     return [gg, p[0], p[1], fg, p[2], p[3]] + p[4:9] + [ptr, extra] + p[9:11] + [q, p[11]]
 
 
